@@ -477,7 +477,16 @@ func (s *genState) dispatch(i, depth int, must, guarded bool) *Expr {
 	for j := 0; j < n; j++ {
 		lead := &Expr{K: KLit, Runes: []rune{perm[j]}}
 		alt := &Expr{K: KSeq}
-		switch k := rapid.IntRange(0, 23).Draw(t, "dprefix"); {
+		switch k := rapid.IntRange(0, 25).Draw(t, "dprefix"); {
+		case k >= 24:
+			// a lookahead whose operand can match without consuming and is made of some of
+			// the characters the alternative itself starts with:  &('a'* !'x') [a-c]
+			lead = &Expr{K: KClass, Items: []Item{{perm[j], perm[j] + rune(rapid.IntRange(1, 2).Draw(t, "pow"))}}}
+			if k == 24 {
+				alt.Kids = append(alt.Kids, Un(KAnd, Seq(Un(KStar, &Expr{K: KLit, Runes: []rune{perm[j]}}), Un(KNot, small("pob")))))
+			} else {
+				alt.Kids = append(alt.Kids, Un(KAnd, Un(KOpt, &Expr{K: KLit, Runes: []rune{perm[j]}})))
+			}
 		case k >= 21 && s.p.MaxRune:
 			// the leading element is a range across the surrogate gap
 			lead = &Expr{K: KClass, Items: []Item{{0xD7FF, 0xE000 + rune(rapid.IntRange(0, 1).Draw(t, "dgap"))}}}
